@@ -11,6 +11,13 @@ use std::collections::{HashSet, VecDeque};
 use std::sync::atomic::Ordering;
 use toktrie::TokenizerEnv;
 
+fn c19_vocab_canon() -> VocabSpec {
+    let mut v = c19_vocab();
+    v.canonical = true;
+    v.name = "SPEC(18)+canon".into();
+    v
+}
+
 fn c19_vocab() -> VocabSpec {
     let toks: Vec<&[u8]> = vec![
         b"a", b"b", b"c", b"ab", b"\xFF<a>", b"\xFFab", b"\xFF", b"\xFF[3]", b"<a>", b"<", b">", b"[", b"3", b"]", b"\xFF<|x|>", b"x", b"\"", b"\xFF<eos>",
@@ -53,6 +60,11 @@ fn grammars() -> Vec<SpecGrammar> {
         SpecGrammar { name: "wildcard", lark: "start: \"ab\" <[*]> \"c\"", bnf: Bnf { nts: vec![vec![alt(cat(vec![t("ab"), vec![tok(&all_ids)], t("c")]))]] }, wildcard: true },
         SpecGrammar { name: "spelled-name", lark: "start: \"<a>\" \"b\"", bnf: Bnf { nts: vec![vec![alt(cat(vec![t("<a>"), t("b")]))]] }, wildcard: false },
         SpecGrammar { name: "spelled-numeric", lark: "start: \"[3]\" \"b\"", bnf: Bnf { nts: vec![vec![alt(cat(vec![t("[3]"), t("b")]))]] }, wildcard: false },
+        SpecGrammar { name: "alt3-named", lark: "start: \"a\" (<a> | <|x|> | <[7]>) \"b\"", bnf: Bnf { nts: vec![vec![alt(cat(vec![t("a"), vec![tok(&[4, 14, 7])], t("b")]))]] }, wildcard: false },
+        SpecGrammar { name: "alt2-named", lark: "start: \"a\" (<a> | <|x|>) \"b\"", bnf: Bnf { nts: vec![vec![alt(cat(vec![t("a"), vec![tok(&[4, 14])], t("b")]))]] }, wildcard: false },
+        SpecGrammar { name: "alt4-named", lark: "start: \"a\" (<a> | <|x|> | <[7]> | <[5]>) \"b\"", bnf: Bnf { nts: vec![vec![alt(cat(vec![t("a"), vec![tok(&[4, 14, 7, 5])], t("b")]))]] }, wildcard: false },
+        SpecGrammar { name: "list-then-single", lark: "start: \"a\" (<[4,7]> | <[14]>) \"b\"", bnf: Bnf { nts: vec![vec![alt(cat(vec![t("a"), vec![tok(&[4, 7, 14])], t("b")]))]] }, wildcard: false },
+        SpecGrammar { name: "single-forced", lark: "start: \"ab\" <|x|> \"ab\"", bnf: Bnf { nts: vec![vec![alt(cat(vec![t("ab"), vec![tok(&[14])], t("ab")]))]] }, wildcard: false },
         SpecGrammar { name: "alt", lark: "start: <a> | \"a\" <|x|>", bnf: Bnf { nts: vec![vec![alt(vec![tok(&[4])]), alt(cat(vec![t("a"), vec![tok(&[14])]]))]] }, wildcard: false },
         SpecGrammar {
             name: "loop",
@@ -136,6 +148,45 @@ fn run_grammar(ctx: &Ctx, g: &SpecGrammar, vocab: &VocabSpec, depth: usize) {
         };
         ctx.outcome(mask_hash(&mask) ^ fnv(g.name.as_bytes()));
         let expected_toks = ear.expected_toks(&n.c);
+        let ff = if vocab.canonical { n.m.clone().compute_ff_tokens() } else { vec![] };
+        if !ff.is_empty() {
+            // canonical tokenizer: the mask narrows to the forced token; forcing is only
+            // legitimate when the reference allows a single way forward
+            ctx.count("forcing_states", 1);
+            let ref_allowed: Vec<u32> = (0..nv).filter(|t| {
+                let b = trie.token(*t);
+                if *t == eos { return ear.accepting(&n.c); }
+                ear.step_tok(&n.c, *t).is_some() || (b.first() != Some(&0xFF) && !b.is_empty() && ear.run(&n.c, b).is_some())
+            }).collect();
+            let tok_alts = expected_toks.len();
+            let first_bytes: std::collections::BTreeSet<u8> = ref_allowed.iter().filter(|t| !expected_toks.contains(t)).filter_map(|t| trie.token(*t).first().copied()).collect();
+            let legit = (tok_alts == 0 && first_bytes.len() == 1) || (tok_alts == 1 && first_bytes.is_empty());
+            let ml = mask_to_vec(&mask);
+            if !legit || ml != vec![ff[0]] || !ref_allowed.contains(&ff[0]) {
+                ctx.violation(viol(g, vocab, "forcing_not_legitimate", "token-reference-forced-wrongly", &n.hist,
+                    json!({"ff_tokens": ff, "mask": ml, "reference_allowed": ref_allowed, "token_reference_alternatives": tok_alts})));
+                return;
+            }
+            // follow the forced token
+            let t = ff[0];
+            let bytes = trie.token(t);
+            let c2 = ear.step_tok(&n.c, t).or_else(|| if bytes.first() != Some(&0xFF) { ear.run(&n.c, bytes) } else { None });
+            let mut c = n.m.clone();
+            if let (Some(c2), Ok(())) = (c2, c.consume_token(t)) {
+                if n.hist.len() < depth {
+                    let k = (state_key(&c), ear.key(&c2));
+                    if seen.insert(k) {
+                        let mut h = n.hist.clone();
+                        h.push(t);
+                        q.push_back(N { m: c, c: c2, hist: h });
+                    }
+                }
+            } else {
+                ctx.violation(viol(g, vocab, "forced_token_rejected", "token-reference-forced-wrongly", &n.hist, json!({"ff_tokens": ff})));
+                return;
+            }
+            continue;
+        }
         let at_tok_pos = !expected_toks.is_empty();
         if at_tok_pos {
             ctx.count("token_reference_positions", 1);
@@ -240,6 +291,8 @@ pub fn run(ctx: &Ctx) -> Coverage {
     let depth = ctx.tier.pick(6, 10);
     let gs = grammars();
     gs.par_iter().for_each(|g| run_grammar(ctx, g, &vocab, depth));
+    let vcanon = c19_vocab_canon();
+    gs.par_iter().for_each(|g| run_grammar(ctx, g, &vcanon, depth));
     // JSON / regex text grammars: no special token, no bare marker anywhere
     let text_grammars = vec![
         GrammarSpec::Json(json!({"type": "string", "maxLength": 3})),
